@@ -1,5 +1,5 @@
 """C18 — topology diagnosis and root repair tell the truth about any parent table (spec/Dsu.tla, Checkers.tla)."""
-import io, warnings
+import io, os, shutil, warnings
 import numpy as np
 
 RULE = ("(a) every history of at most L union/find/same operations on 4 elements and every sequence of unions followed by finds of all elements, "
@@ -75,6 +75,13 @@ def exec_dsu_rec(c):
     return {"events": events, "answer": int(bool(ans))}
 
 
+SCRATCH = None
+
+
+def lib_vid(c):
+    return c.get("vid", c["cid"])
+
+
 def exec_check(c):
     import pandas as pd
     from swcgeom.core.swc_utils import is_single_root, has_cyclic, is_sorted, is_bifurcate
@@ -83,6 +90,10 @@ def exec_check(c):
     base = c.get("base", 0)
     ids = np.arange(n, dtype=np.int64)
     pid = np.array(P, dtype=np.int64)
+    # a table is a set of (id, parent id) pairs: two cases in three list the rows in another order (reversed / rotated)
+    k = lib_vid(c) % 3
+    order = np.arange(n) if k == 0 else (np.arange(n)[::-1].copy() if k == 1 else np.roll(np.arange(n), n // 2 + 1))
+    ids, pid = ids[order], pid[order]
     sid = ids + base
     spid = np.where(pid == -1, -1, pid + base)
     df = pd.DataFrame({"id": sid, "type": np.ones(n, dtype=np.int64), "x": np.zeros(n), "y": np.zeros(n), "z": np.zeros(n), "r": np.ones(n), "pid": spid})
@@ -99,10 +110,20 @@ def exec_repair(c):
     ty = [2 + k % 3 for k in range(n)]
     text = "".join("%d %d %s %s 0 %d %d\n" % (base + k, ty[k], pos[k], ys[k], 1 + k, -1 if F[k] == -1 else base + F[k]) for k in range(n))
     via = ["read", "fn", "read_noreset"][c.get("via", 0) % 3]
+    path = None
+    if via == "read" and lib_vid(c) % 2:
+        # the file is on disk (one and the same path for every case) and is read again, plainly, after the read that repairs it
+        import tempfile
+        global SCRATCH
+        if SCRATCH is None:
+            SCRATCH = tempfile.mkdtemp(prefix="verif_c18_")
+        path = os.path.join(SCRATCH, "forest.swc")
+        with open(path, "w") as f:
+            f.write(text)
     with warnings.catch_warnings(record=True) as ws:
         warnings.simplefilter("always")
         if via == "read":
-            df, _ = read_swc(io.StringIO(text), fix_roots={"off": False}.get(mode, mode))
+            df, _ = read_swc(path if path else io.StringIO(text), fix_roots={"off": False}.get(mode, mode))
         elif via == "read_noreset":
             df, _ = read_swc(io.StringIO(text), fix_roots={"off": False}.get(mode, mode), reset_index=False)
         else:
@@ -124,7 +145,15 @@ def exec_repair(c):
             if not (idl[k] == base + k - shift and tyok and float(df["x"].iloc[k]) == pos[k] and float(df["y"].iloc[k]) == ys[k]
                     and float(df["z"].iloc[k]) == 0 and float(df["r"].iloc[k]) == 1 + k):
                 ok = False
-    return {"R": R, "attrok": int(ok), "warned": warned, "via": "read" if via.startswith("read") else "fn"}
+    R2, warned2 = [], 0
+    if path:
+        with warnings.catch_warnings(record=True) as ws2:
+            warnings.simplefilter("always")
+            df2, _ = read_swc(path, fix_roots=False, reset_index=False)
+        warned2 = int(len(ws2) > 0)
+        idl2 = [int(v) for v in df2["id"]]
+        R2 = [(-1 if int(p) == -1 else (idl2.index(int(p)) if int(p) in idl2 else -2)) for p in df2["pid"]]
+    return {"R": R, "attrok": int(ok), "warned": warned, "via": "read" if via.startswith("read") else "fn", "R2": R2, "warned2": warned2}
 
 
 def execute(c):
@@ -255,6 +284,8 @@ def run(ctx):
     rec = [{"op": "dsu_rec", "n": len(c["P"]), "P": c["P"], "ops": []} for c in free_tables(ctx, 40 if q else 400, 60 if q else 200)]
     p = ctx.write_cases("has_cyclic-recorded", rec)
     ctx.run_cases("has_cyclic-recorded", rec, p, execute, "Trace_Dsu", keyfn, nontrivial)
+    if SCRATCH and os.path.isdir(SCRATCH):
+        shutil.rmtree(SCRATCH, ignore_errors=True)
     ctx.assumptions += ["representatives are read from element_parent by following parent links (no call into the structure); parent/rank arrays themselves are not compared, "
                         "so any correct union-find variant is accepted",
                         "a checker that does not answer within 10 s is reported as Timeout (the specification has no action for a call that does not return)",
